@@ -120,6 +120,7 @@ func Run(c *Case, cfg Config, stats *Stats) (*Divergence, Outcome) {
 		}
 		last := i == len(c.Steps)-1
 		w.noteTags(st)
+		w.noteOrderTags(st)
 		r := safeCall(func() execResult { return f(w, st) })
 		stats.Calls++
 		stats.ByOp[st.Op.K]++
@@ -492,6 +493,76 @@ func (w *World) cellDT(id int) *vals.DT {
 		}
 	}
 	return w.Cfg.D
+}
+
+// noteOrderTags names the data-order circumstances of an operation (used to identify listed findings):
+// "f-operand" some tensor operand is column-major; "mixed-order" operands / destination differ in data order.
+func (w *World) noteOrderTags(st *Step) {
+	var hs []int
+	a := func() []json.RawMessage { return decodeArr(st.Op.A) }
+	switch st.Op.K {
+	case "Arith", "Cmp":
+		x := a()
+		hs = append(hs, st.Op.H)
+		if decodeStr(x[1]) == "TT" {
+			hs = append(hs, decodeInt(x[2]))
+		}
+		if d := decodeInt(x[4]); d > 0 {
+			hs = append(hs, d)
+		}
+	case "Unary":
+		x := a()
+		hs = append(hs, st.Op.H)
+		if d := decodeInt(x[2]); d > 0 {
+			hs = append(hs, d)
+		}
+	case "Product":
+		x := a()
+		hs = append(hs, st.Op.H, decodeInt(x[1]))
+		if d := decodeInt(x[5]); d > 0 {
+			hs = append(hs, d)
+		}
+	case "Reduce", "Arg", "Repeat", "RoundTrip", "Trace", "Export", "Clone", "Materialize", "SafeT", "UnsafeUn", "UnsafeBinK", "Memset", "Zero":
+		hs = append(hs, st.Op.H)
+	case "Concat", "Stack":
+		hs = append(hs, decodeInts(a()[1])...)
+	case "Copy", "CopyTo", "UnsafeBinT":
+		x := a()
+		hs = append(hs, st.Op.H)
+		if st.Op.K == "UnsafeBinT" {
+			hs = append(hs, decodeInt(x[1]))
+		} else {
+			hs = append(hs, decodeInts(st.Op.A)[0])
+		}
+	default:
+		return
+	}
+	p := w.finalPost()
+	nF, nC := 0, 0
+	for _, h := range hs {
+		if h <= 0 || h > len(p.Live) {
+			continue
+		}
+		if p.Live[h-1].Ord == "F" {
+			nF++
+		} else {
+			nC++
+		}
+	}
+	add := func(t string) {
+		for _, o := range w.tags {
+			if o == t {
+				return
+			}
+		}
+		w.tags = append(w.tags, t)
+	}
+	if nF > 0 {
+		add("f-operand")
+	}
+	if nF > 0 && nC > 0 {
+		add("mixed-order")
+	}
 }
 
 func (w *World) noteTags(st *Step) {
